@@ -285,9 +285,24 @@ impl<'w> Ctx<'w> {
                 let i = self.expr(&t.expr)?;
                 match self.resolve(&i.ty) {
                     Ty::Res(t) => Ok(E { s: i.s, ty: *t, eff: i.eff }),
+                    Ty::Opt(t) if matches!(self.ret_ty, Ty::Opt(_)) => {
+                        // `e?` in a function returning Option: `let some x := e | return None`
+                        let v = self.fresh("v");
+                        let none = self.ret_pack(Some("Option.none"));
+                        self.pre.push(format!("let Option.some {} := {} | return {}", v, i.s, none));
+                        Ok(E { s: v, ty: *t, eff: false })
+                    }
                     o => Err(format!("`?` on {:?}", o)),
                 }
             }
+            Expr::Block(b) if b.block.stmts.len() == 1 && b.label.is_none() => match &b.block.stmts[0] {
+                Stmt::Expr(x, None) => self.expr(x),
+                _ => Err("block expression".into()),
+            },
+            Expr::Unsafe(u) if u.block.stmts.len() == 1 => match &u.block.stmts[0] {
+                Stmt::Expr(x, None) => self.expr(x),
+                _ => Err("unsafe block".into()),
+            },
             Expr::Macro(m) if m.mac.path.is_ident("unreachable") => Ok(e("(← throw (Fail.panic \"unreachable\"))", Ty::Unit)),
             other => Err(format!("expression `{}` is outside the subset", short(&other.to_token_stream().to_string()))),
         }
@@ -439,6 +454,7 @@ impl<'w> Ctx<'w> {
                 };
                 Ok(e(self.size_of(&t)?.to_string(), Ty::U(64)))
             }
+            "mem::transmute" | "std::mem::transmute" | "transmute" => self.expr(&c.args[0]), // lifetime extension only
             "SeekFrom::End" => {
                 let a = self.expr(&c.args[0])?;
                 self.unify(&a.ty, &Ty::I(64))?;
@@ -613,6 +629,21 @@ impl<'w> Ctx<'w> {
         let recv = self.expr(&m.receiver)?;
         let rt = self.resolve(&recv.ty);
         let eff = recv.eff;
+        // `&self` methods of translated structs on a receiver that is not a place (`x.borrow().f(..)`)
+        if let Ty::Named(sn) = &rt {
+            if let Some(sig) = self.w.fns.get(&format!("{}.{}", sn, name)).cloned() {
+                if sig.self_mut || sig.params.iter().any(|(_, m)| *m) {
+                    return Err(format!("`&mut` method `{}` on a receiver that is not a place", name));
+                }
+                let mut argv = vec![paren(&recv.s)];
+                for (a, (pty, _)) in args.iter().zip(sig.params.iter().skip(1)) {
+                    let v = self.expr(a)?;
+                    if self.is_int(pty) { self.unify(&v.ty, pty)?; }
+                    argv.push(paren(&v.s));
+                }
+                return Ok(E { s: format!("(← {} {})", sig.lean, argv.join(" ")), ty: sig.ret.clone(), eff: true });
+            }
+        }
         match (rt.clone(), name.as_str()) {
             (Ty::Bytes | Ty::List(_), "len") => Ok(E { s: format!("{}.length", paren(&recv.s)), ty: Ty::U(64), eff }),
             (Ty::Bytes | Ty::List(_), "is_empty") => Ok(E { s: format!("{}.isEmpty", paren(&recv.s)), ty: Ty::Bool, eff }),
@@ -656,22 +687,79 @@ impl<'w> Ctx<'w> {
             }
             (Ty::Opt(t), "is_some") => { let _ = t; Ok(E { s: format!("{}.isSome", paren(&recv.s)), ty: Ty::Bool, eff }) }
             (Ty::Opt(t), "is_none") => { let _ = t; Ok(E { s: format!("{}.isNone", paren(&recv.s)), ty: Ty::Bool, eff }) }
-            (Ty::Opt(t), "map") => {
-                // closures `|x| expr` and `AsRef::as_ref`
+            (Ty::Opt(t), "map" | "and_then") => {
+                let is_map = name == "map";
                 match args[0] {
-                    Expr::Path(p) if path_str(&p.path).ends_with("as_ref") => Ok(recv),
+                    Expr::Path(p) if is_map && path_str(&p.path).ends_with("as_ref") => Ok(recv),
                     Expr::Closure(c) if c.inputs.len() == 1 => {
-                        let pn = match &c.inputs[0] { Pat::Ident(i) => i.ident.to_string(), _ => return Err("closure pattern".into()) };
                         self.vars.push(BTreeMap::new());
-                        let ln = self.bind(&pn, (*t).clone());
-                        let body = self.expr(&c.body);
+                        let mut al = BTreeMap::new();
+                        let pat = self.pattern(&c.inputs[0], &t, None, &mut al);
+                        self.mut_pat_binds.clear();
+                        let body = pat.and_then(|p| self.expr(&c.body).map(|b| (p, b)));
                         self.vars.pop();
-                        let body = body?;
-                        if body.eff { return Err("effectful closure".into()); }
-                        Ok(E { s: format!("({}.map (fun {} => {}))", paren(&recv.s), ln, body.s), ty: Ty::Opt(Box::new(body.ty)), eff })
+                        let (pat, body) = body?;
+                        let rty = if is_map { Ty::Opt(Box::new(body.ty.clone())) } else {
+                            match self.resolve(&body.ty) { Ty::Opt(_) => body.ty.clone(), o => return Err(format!("and_then closure returning {:?}", o)) }
+                        };
+                        if body.eff {
+                            let wrap = if is_map { format!("(Option.some {})", body.s) } else { paren(&body.s) };
+                            Ok(E { s: format!("(← (match {} with | Option.some {} => (do pure {}) | Option.none => pure Option.none))", recv.s, pat, wrap), ty: rty, eff: true })
+                        } else if is_map {
+                            Ok(E { s: format!("({}.map (fun {} => {}))", paren(&recv.s), pat, body.s), ty: rty, eff })
+                        } else {
+                            Ok(E { s: format!("({}.bind (fun {} => {}))", paren(&recv.s), pat, body.s), ty: rty, eff })
+                        }
                     }
-                    _ => Err("Option::map argument".into()),
+                    _ => Err("Option::map / and_then argument".into()),
                 }
+            }
+            (Ty::List(t), "first") => Ok(E { s: format!("{}.head?", paren(&recv.s)), ty: Ty::Opt(t), eff }),
+            (Ty::List(t), "last") => Ok(E { s: format!("{}.getLast?", paren(&recv.s)), ty: Ty::Opt(t), eff }),
+            (Ty::List(t), "get") => {
+                let a = self.expr(args[0])?;
+                self.unify(&a.ty, &Ty::U(64))?;
+                Ok(E { s: format!("{}[{}]?", paren(&recv.s), a.s), ty: Ty::Opt(t), eff: eff || a.eff })
+            }
+            (Ty::Named(_), "borrow") => Ok(recv), // B: Borrow<Block>
+            (Ty::List(t), "binary_search") if self.is_int(&t) => {
+                let a = self.expr(args[0])?;
+                self.unify(&a.ty, &t)?;
+                Ok(E { s: format!("(binarySearch {} {})", recv.s, paren(&a.s)), ty: Ty::Named("SearchRes".into()), eff: eff || a.eff })
+            }
+            (Ty::List(t), "binary_search_by_key") => {
+                // the key closure may call translated (effectful) functions: a monadic search
+                let k = self.expr(args[0])?;
+                match args[1] {
+                    Expr::Closure(c) if c.inputs.len() == 1 => {
+                        self.vars.push(BTreeMap::new());
+                        let mut al = BTreeMap::new();
+                        let pat = self.pattern(&c.inputs[0], &t, None, &mut al);
+                        self.mut_pat_binds.clear();
+                        let body = pat.and_then(|p| self.expr(&c.body).map(|b| (p, b)));
+                        self.vars.pop();
+                        let (pat, body) = body?;
+                        if self.resolve(&body.ty) != self.resolve(&k.ty) { return Err(format!("binary_search_by_key: key {:?} vs {:?}", k.ty, body.ty)); }
+                        let cmp = match self.resolve(&k.ty) { Ty::Opt(x) if *x == Ty::Bytes => "cmpOptBytes", Ty::Bytes => "cmpBytes", _ => return Err("binary_search_by_key key type".into()) };
+                        Ok(E { s: format!("(← binarySearchByKeyM {} {} {} (fun {} => (do pure {})))", cmp, recv.s, paren(&k.s), pat, paren(&body.s)), ty: Ty::Named("SearchRes".into()), eff: true })
+                    }
+                    _ => Err("binary_search_by_key argument".into()),
+                }
+            }
+            (Ty::Named(n), "unwrap_or_else") if n == "SearchRes" => {
+                // `.unwrap_or_else(|x| x)`: extract Err and Ok
+                match args[0] {
+                    Expr::Closure(c) if c.inputs.len() == 1 && c.inputs[0].to_token_stream().to_string() == c.body.to_token_stream().to_string() => {
+                        Ok(E { s: format!("(okOrErr {})", recv.s), ty: Ty::U(64), eff })
+                    }
+                    _ => Err("unwrap_or_else on a search result".into()),
+                }
+            }
+            (Ty::U(w), "checked_sub") => {
+                let a = self.expr(args[0])?;
+                self.unify(&a.ty, &rt)?;
+                let _ = w;
+                Ok(E { s: format!("(checkedSub {} {})", recv.s, a.s), ty: Ty::Opt(Box::new(rt)), eff: eff || a.eff })
             }
             (Ty::Bytes, "last") => Ok(E { s: format!("({}.getLast?.map UInt8.toNat)", paren(&recv.s)), ty: Ty::Opt(Box::new(Ty::U(8))), eff }),
             (Ty::Bytes, "starts_with") => {
